@@ -7,11 +7,15 @@
 use vstd::prelude::*;
 verus! {
 //@include contracts/s/prelude.rs
-/// tracked object: the density iterate.  fresh = "the residual norm in hand was evaluated on this
-/// iterate"; ok = "... and it was below the stage's tolerance"
-pub struct Arr { pub fresh: bool, pub ok: bool }
-/// the profile; density_ok = "the stored density is an iterate whose residual was found below the tolerance"
-pub struct Profile { pub density_ok: bool }
+/// tracked object: the density iterate.  fresh = "`res` is the Euler-Lagrange residual norm evaluated on
+/// this iterate"; tol = the tolerance of the stage that evaluated it (S10: abstract floats over the reals)
+pub struct Arr { pub fresh: bool, pub res: Fl, pub tol: Fl }
+impl Arr {
+    /// the residual norm of this very iterate is below the stage's tolerance
+    pub open spec fn ok(self) -> bool { self.fresh && fv(self.res) <= fv(self.tol) }
+}
+/// the profile; `density` is the stored iterate
+pub struct Profile { pub density: Arr }
 #[verifier::external_body] pub fn gmres() -> (r: Result<(), SkErr>) { unimplemented!() }
 
 impl Profile {
@@ -21,13 +25,15 @@ impl Profile {
 //@keep k: usize
 //@keep picard.max_iter as max_iter: usize
 //@readonly mapv,clone,euler_lagrange_equation,line_search
-//@on stmt self.euler_lagrange_equation(&*rho, &*rho_bulk, $..r) => rho.fresh = true; rho.ok = false;
-//@on then res_norm < picard.tol => rho.ok = rho.fresh;
-//@on assign rho => rho.fresh = false; rho.ok = false;
-//@on? assign rho_bulk => rho.fresh = false; rho.ok = false;
-//@on? mutcall rho => rho.fresh = false; rho.ok = false;
-//@on? mutcall rho_bulk => rho.fresh = false; rho.ok = false;
-    ensures (r is Ok && r->Ok_0.0) ==> final(rho).ok
+//@keep res_norm: Fl
+//@keep picard.tol as tol: Fl
+//@on stmt self.euler_lagrange_equation(&*rho, &*rho_bulk, $..r) => ;
+//@on assign res_norm => rho.fresh = true; rho.res = res_norm; rho.tol = tol;
+//@on assign rho => rho.fresh = false;
+//@on? assign rho_bulk => rho.fresh = false;
+//@on? mutcall rho => rho.fresh = false;
+//@on? mutcall rho_bulk => rho.fresh = false;
+    ensures (r is Ok && r->Ok_0.0) ==> final(rho).ok()
 //@end
 
 //@skeleton feos-dft/src/solver.rs DFTProfile::solve_anderson
@@ -36,13 +42,15 @@ impl Profile {
 //@keep k: usize
 //@keep anderson.max_iter as max_iter: usize
 //@readonly mapv,clone,euler_lagrange_equation
-//@on stmt self.euler_lagrange_equation(&*rho, &*rho_bulk, $..r) => rho.fresh = true; rho.ok = false;
-//@on then res_norm < anderson.tol => rho.ok = rho.fresh;
-//@on assign rho => rho.fresh = false; rho.ok = false;
-//@on? assign rho_bulk => rho.fresh = false; rho.ok = false;
-//@on? mutcall rho => rho.fresh = false; rho.ok = false;
-//@on? mutcall rho_bulk => rho.fresh = false; rho.ok = false;
-    ensures (r is Ok && r->Ok_0.0) ==> final(rho).ok
+//@keep res_norm: Fl
+//@keep anderson.tol as tol: Fl
+//@on stmt self.euler_lagrange_equation(&*rho, &*rho_bulk, $..r) => ;
+//@on assign res_norm => rho.fresh = true; rho.res = res_norm; rho.tol = tol;
+//@on assign rho => rho.fresh = false;
+//@on? assign rho_bulk => rho.fresh = false;
+//@on? mutcall rho => rho.fresh = false;
+//@on? mutcall rho_bulk => rho.fresh = false;
+    ensures (r is Ok && r->Ok_0.0) ==> final(rho).ok()
 //@end
 
 //@skeleton feos-dft/src/solver.rs DFTProfile::solve_newton
@@ -52,12 +60,14 @@ impl Profile {
 //@keep newton.max_iter as max_iter: usize
 //@readonly mapv,clone,euler_lagrange_equation,second_partial_derivatives
 //@event gmres free
-//@on stmt self.euler_lagrange_equation(rho, rho_bulk, $..r) => rho.fresh = true; rho.ok = false;
-//@on then res_norm < newton.tol => rho.ok = rho.fresh;
-//@on assign rho => rho.fresh = false; rho.ok = false;
-//@on? mutcall rho => rho.fresh = false; rho.ok = false;
-//@on? mutcall rho_bulk => rho.fresh = false; rho.ok = false;
-    ensures (r is Ok && r->Ok_0.0) ==> final(rho).ok
+//@keep res_norm: Fl
+//@keep newton.tol as tol: Fl
+//@on stmt self.euler_lagrange_equation(rho, rho_bulk, $..r) => ;
+//@on assign res_norm => rho.fresh = true; rho.res = res_norm; rho.tol = tol;
+//@on assign rho => rho.fresh = false;
+//@on? mutcall rho => rho.fresh = false;
+//@on? mutcall rho_bulk => rho.fresh = false;
+    ensures (r is Ok && r->Ok_0.0) ==> final(rho).ok()
 //@end
 
 //@skeleton feos-dft/src/solver.rs DFTProfile::call_solver
@@ -70,9 +80,9 @@ impl Profile {
 //@event solve_newton args=1,2
     ensures
         // success (debug = false) only if the last stage found the residual of the current iterate below its tolerance
-        (r is Ok && !debug) ==> final(rho).ok
+        (r is Ok && !debug) ==> final(rho).ok()
 //@loop 0
-    invariant converged ==> rho.ok
+    invariant converged ==> rho.ok()
 //@end
 
 //@skeleton feos-dft/src/profile/mod.rs DFTProfile::solve
@@ -82,11 +92,11 @@ impl Profile {
 //@track bulk_density: Arr
 //@event call_solver args=0,1,3
 //@readonly mapv,clone,component_index,into_iter
-//@on stmt self.density = Density::from_reduced(density) => self.density_ok = density.ok;
+//@on stmt self.density = Density::from_reduced(density) => self.density = density;
 //@on stmt self.bulk = $..r => ;
     ensures
         // the profile stores exactly the iterate the solver returned
-        (r is Ok && !debug) ==> final(self).density_ok
+        (r is Ok && !debug) ==> final(self).density.ok()
 //@end
 }
 } // verus!
